@@ -32,6 +32,11 @@ __CPROVER_ensures(__CPROVER_return_value.ok ==> ENTRY_OK(mod))
 __CPROVER_ensures((__CPROVER_return_value.ok && __verif_gf < mod->function_count) ==> FN_OK(mod, __verif_gf))
 __CPROVER_ensures((__CPROVER_return_value.ok && __verif_gi < mod->import_count) ==> IMP_OK(mod, __verif_gi));
 
+/* ghost-bound copies of verify_function's view of the function under verification (bound by a requires clause;
+ * the module is const for the verifier, so they stay equal to code + code_offset / code_length) */
+extern const uint8_t *__verif_c;
+extern uint32_t __verif_end;
+
 static NvmVerifyResult verify_function(const NvmModule *mod, uint32_t fn_idx)
 __CPROVER_requires(MODV_PRE(mod))
 __CPROVER_requires(fn_idx < mod->function_count && FN_PRE(mod, fn_idx))
@@ -40,7 +45,8 @@ __CPROVER_assigns(__verif_g)
 __CPROVER_ensures(fn_idx == __verif_gf ==> __verif_g.fnv == 1)
 __CPROVER_ensures(fn_idx != __verif_gf ==> __verif_g.fnv == __CPROVER_old(__verif_g.fnv))
 __CPROVER_ensures(__verif_g.verified_module == __CPROVER_old(__verif_g.verified_module))
-__CPROVER_ensures((__CPROVER_return_value.ok && __verif_g.hit) ==> INSTR_OK(mod, fn_idx, __verif_gpos))
+__CPROVER_requires(__verif_c == FCODE(mod, fn_idx) && __verif_end == FEND(mod, fn_idx))
+__CPROVER_ensures((__CPROVER_return_value.ok && __verif_g.hit) ==> INSTR_OKX(__verif_c, __verif_end, __verif_gpos, mod, fn_idx))
 /* the walk covers the function exactly: it ends at code_length, never beyond */
 __CPROVER_ensures(__CPROVER_return_value.ok ==> __verif_g.walk_end == mod->functions[fn_idx].code_length);
 
